@@ -1008,4 +1008,67 @@ example : sumSignal [[1, 2, 3, 4, 5]] 1 (1 / 2) 0 (1 / 4) = 3 ∧ sumSignal [[1,
     image, so the property never meets this case. -/
 theorem sumSignal_negative_stop_wraps : sumSignal [[1, 2, 3, 4, 5]] 1 0 0 (-3) = 10 := by decide +kernel
 
+/-! ## centroid refinement on a noise-free spot (bias correction off) -/
+
+/-- the two `convolve2d(…, "same")` calls of `refine_peak_based_on_moment` are the zeroth and first
+    moment (about the pixel `p`) of the `2h+1` pixels around `p`, zero outside the image -/
+theorem centroid_offset_spec (eps : Rat) (line : List Rat) (h : Nat) (p : Int) :
+    subpixelOffset eps line h p
+      = (∑ j ∈ Finset.range (2 * h + 1), (((j : Int) - h : Int) : Rat) * dAt line (p - h + j))
+        / (∑ j ∈ Finset.range (2 * h + 1), dAt line (p - h + j) + eps) := by
+  unfold subpixelOffset
+  rw [conv_mean, conv_dir]
+
+/-- **Centroid refinement returns the true centre of a noise-free spot.**  Whenever the refinement of a
+    node succeeds it stops at a pixel `c` that the loop no longer moves, and returns `c + offset(c)`.
+    If the spot on that scan line is non-negative, has counts, and lies inside the window of `c`
+    (no counts further than `h` pixels from `c`), the returned coordinate is the centre of mass
+    `Σ q·I(q) / Σ I(q)` of the line, pulled towards `c` by the factor `eps / (Σ I + eps)` of the
+    regularised division — at most `h·eps / (Σ I + eps)` pixels (`eps = 1e-7`). -/
+theorem centroid_true_centre (eps : Rat) (heps : 0 ≤ eps) (img : List (List Rat)) (h : Nat) (t : Int)
+    (x y : Rat) (hy : centroidCoord eps img h t x = some y) :
+    ∃ c : Int, stepCoord eps ((pyIndex img t).getD []) h c = c ∧
+      y = (c : Rat) + subpixelOffset eps ((pyIndex img t).getD []) h c ∧
+      (SpotInWindow ((pyIndex img t).getD []) h c → (∀ q, 0 ≤ pix ((pyIndex img t).getD []) q) →
+        0 < lineMass ((pyIndex img t).getD []) →
+        let μ := lineMoment ((pyIndex img t).getD []) / lineMass ((pyIndex img t).getD [])
+        let M := lineMass ((pyIndex img t).getD [])
+        y - μ = ((c : Rat) - μ) * (eps / (M + eps)) ∧ |y - μ| ≤ (h : Rat) * (eps / (M + eps))) := by
+  unfold centroidCoord at hy
+  simp only at hy
+  generalize (pyIndex img t).getD [] = line at *
+  cases hst : settle eps line h 99 (roundHalfEven x) with
+  | none => simp [hst] at hy
+  | some c =>
+    simp only [hst, Option.map_some, Option.some.injEq] at hy
+    refine ⟨c, settle_stable eps line h 99 _ c hst, hy.symm, ?_⟩
+    intro hs hpos hM
+    have hMe : lineMass line + eps ≠ 0 := by linarith
+    have hM0 : lineMass line ≠ 0 := ne_of_gt hM
+    have hval := centroid_value eps line h c hs hMe
+    rw [hy] at hval
+    have hfrac : 0 ≤ eps / (lineMass line + eps) := div_nonneg heps (by linarith)
+    have heq : y - lineMoment line / lineMass line
+        = ((c : Rat) - lineMoment line / lineMass line) * (eps / (lineMass line + eps)) := by
+      rw [hval]; field_simp; ring
+    refine ⟨heq, ?_⟩
+    rw [heq, abs_mul, abs_of_nonneg hfrac]
+    apply mul_le_mul_of_nonneg_right _ hfrac
+    have hnear := com_near line h c hs hpos
+    have : (c : Rat) - lineMoment line / lineMass line = ((c : Rat) * lineMass line - lineMoment line) / lineMass line := by
+      field_simp
+    rw [this, abs_div, abs_of_pos hM, div_le_iff₀ hM]
+    exact hnear
+
+/-- non-vacuity (tests on concrete lines): a symmetric spot is returned at its centre; an asymmetric
+    one makes the loop walk one pixel and is returned at its centre of mass 7/4, up to `eps` -/
+example : centroidCoord (1 / 10000000) [[0, 1, 2, 1, 0]] 2 0 2 = some 2 := by decide +kernel
+example : centroidCoord (1 / 10000000) [[0, 1, 3, 0, 0]] 2 0 1 = some (2 - 1 / (4 + 1 / 10000000)) := by
+  decide +kernel
+example : SpotInWindow [0, 1, 3, 0, 0] 2 2 := by
+  intro q hq hne
+  simp only [List.length_cons, List.length_nil] at hq
+  have : q = 0 ∨ q = 1 ∨ q = 2 ∨ q = 3 ∨ q = 4 := by omega
+  rcases this with rfl | rfl | rfl | rfl | rfl <;> simp
+
 end Verif.C17
